@@ -8,7 +8,10 @@
 #include <gudhi/Matrix.h>
 #include <gudhi/persistence_matrix_options.h>
 
+#include <deque>
+#include <list>
 #include <memory>
+#include <set>
 #include <type_traits>
 
 #include "c05_io.h"
@@ -19,7 +22,11 @@ using Gudhi::persistence_matrix::Column_indexation_types;
 using Gudhi::persistence_matrix::Column_types;
 
 // RA: 0 = no row access, 1 = intrusive rows, 2 = set rows
-template <Column_types CT, int FL, bool Z2, int IDX, int RA, bool RR, bool RC, bool MAPC, bool DIM, bool VINE, bool SW>
+// XF: harness-side extras, bit 0 (X_NOPAIR) = has_column_pairings off (RU and chain flavours stay persistence matrices through
+//     can_retrieve_representative_cycles: no barcode is stored, the identities of the exposed matrices are all that is
+//     checked), bit 1 (X_RANGES) = insert_boundary is also given std::list / std::deque / std::set boundaries
+enum { X_NOPAIR = 1, X_RANGES = 2 };
+template <Column_types CT, int FL, bool Z2, int IDX, int RA, bool RR, bool RC, bool MAPC, bool DIM, bool VINE, bool SW, int XF = 0>
 struct Opt {
   using Field_coeff_operators = Gudhi::persistence_fields::Zp_field_operators<>;
   using Index = unsigned int;
@@ -30,9 +37,9 @@ struct Opt {
       IDX == I_CONT ? Column_indexation_types::CONTAINER
                     : (IDX == I_POS ? Column_indexation_types::POSITION : Column_indexation_types::IDENTIFIER);
   static const bool is_of_boundary_type = (FL != F_CHAIN);
-  static const bool has_column_pairings = true;
+  static const bool has_column_pairings = !(XF & X_NOPAIR);
   static const bool has_vine_update = VINE;
-  static const bool can_retrieve_representative_cycles = (FL == F_RU && !VINE);
+  static const bool can_retrieve_representative_cycles = (FL == F_RU && !VINE) || (FL == F_CHAIN && (XF & X_NOPAIR) && !VINE);
   static const bool has_matrix_maximal_dimension_access = DIM;
   static const bool has_column_compression = false;
   static const bool has_column_and_row_swaps = SW;
@@ -44,6 +51,8 @@ struct Opt {
   // harness-side tags
   static const int flavour = FL;
   static const int indexing = IDX;
+  static const bool other_ranges = (XF & X_RANGES) != 0;
+  static_assert(!(XF & X_NOPAIR) || FL != F_BND, "a boundary-only matrix without pairings is a base matrix, not C05's subject");
 };
 
 [[noreturn]] inline void not_offered(const char* what) {
@@ -67,6 +76,8 @@ struct Adapter : MatrixIO {
     t.rc = O::has_removable_columns;
     t.has_maxdim = O::has_matrix_maximal_dimension_access || FL == F_BND;
     t.vine = O::has_vine_update;
+    t.pairings = O::has_column_pairings;
+    t.ranges = O::other_ranges;
     return t;
   }
   static InB make_in(const SCol& bd) {
@@ -110,8 +121,18 @@ struct Adapter : MatrixIO {
     for (auto& b : bds) cols.push_back(make_in(b));
     m.reset(new M(cols, p));
   }
-  size_t insert(const MC& mc, bool implicit_id, bool omit_dim, bool& returned) override {
-    InB in = make_in(mc.bd);
+  size_t insert(const MC& mc, bool implicit_id, bool omit_dim, int range_kind, bool& returned) override {
+    InB in = make_in(mc.in);
+    if constexpr (O::other_ranges) {
+      typedef typename InB::value_type E;
+      if (range_kind == R_LIST) return insert_range(std::list<E>(in.begin(), in.end()), mc, implicit_id, omit_dim, returned);
+      if (range_kind == R_DEQUE) return insert_range(std::deque<E>(in.begin(), in.end()), mc, implicit_id, omit_dim, returned);
+      if (range_kind == R_SET) return insert_range(std::set<E>(in.begin(), in.end()), mc, implicit_id, omit_dim, returned);
+    }
+    return insert_range(in, mc, implicit_id, omit_dim, returned);
+  }
+  template <class Range>
+  size_t insert_range(const Range& in, const MC& mc, bool implicit_id, bool omit_dim, bool& returned) {
     constexpr bool returns = !std::is_void<typename M::Insertion_return>::value;
     returned = returns;
     if constexpr (returns) {
@@ -134,8 +155,10 @@ struct Adapter : MatrixIO {
     else not_offered("get_max_dimension");
   }
   void barcode(std::vector<oracle::Bar>& out) override {
-    const auto& bc = m->get_current_barcode();
-    for (const auto& b : bc) out.push_back(oracle::Bar{(int)b.dim, (int)b.birth, b.death == (unsigned)-1 ? -1 : (int)b.death});
+    if constexpr (O::has_column_pairings) {
+      const auto& bc = m->get_current_barcode();
+      for (const auto& b : bc) out.push_back(oracle::Bar{(int)b.dim, (int)b.birth, b.death == (unsigned)-1 ? -1 : (int)b.death});
+    } else not_offered("get_current_barcode");
   }
   SCol column(unsigned idx) override { return content(m->get_column(idx)); }
   SCol column_in(unsigned idx, bool inR) override {
@@ -176,18 +199,28 @@ struct Adapter : MatrixIO {
 };
 
 template <class O>
-void run_case(vh::Case& c, const char* cfg) {
+void run_case(vh::Case& c, const char* cfg, int mode = MODE_NORMAL) {
   Adapter<O> io;
-  run_history(c, cfg, Adapter<O>::traits(), io);
+  run_history(c, cfg, Adapter<O>::traits(), io, mode);
 }
 
 }  // namespace c05
 
-#define C05_INST(NAME, CT, FL, Z2, IDX, RA, RR, RC, MAPC, DIM, VINE, SW)                                                   \
+// C05_INSTX: one instantiation (last argument: the X_ flags) run in the given mode under the given configuration name.
+// C05_INST = no extras, normal histories.  C05_BIGP = a SECOND configuration on an instantiation that a C05_INST / C05_INSTX
+// line of the same unit already makes (same option struct, no further template instantiation): histories over primes up to
+// and above 2^16 with coefficients spread over Z_p (few cases: building the field's inverse table costs seconds there).
+#define C05_INSTM(NAME, MODE, CT, FL, Z2, IDX, RA, RR, RC, MAPC, DIM, VINE, SW, XF)                                        \
   static void VH_CAT(c05_case_fn_, __LINE__)(vh::Case& c) {                                                                 \
-    typedef c05::Opt<Gudhi::persistence_matrix::Column_types::CT, FL, Z2, IDX, RA, RR, RC, MAPC, DIM, VINE, SW> Options;    \
-    c05::run_case<Options>(c, NAME);                                                                                        \
+    typedef c05::Opt<Gudhi::persistence_matrix::Column_types::CT, FL, Z2, IDX, RA, RR, RC, MAPC, DIM, VINE, SW, XF> Options; \
+    c05::run_case<Options>(c, NAME, MODE);                                                                                  \
   }                                                                                                                         \
   VH_CONFIG(NAME, VH_CAT(c05_case_fn_, __LINE__))
+#define C05_INSTX(NAME, CT, FL, Z2, IDX, RA, RR, RC, MAPC, DIM, VINE, SW, XF) \
+  C05_INSTM(NAME, c05::MODE_NORMAL, CT, FL, Z2, IDX, RA, RR, RC, MAPC, DIM, VINE, SW, XF)
+#define C05_INST(NAME, CT, FL, Z2, IDX, RA, RR, RC, MAPC, DIM, VINE, SW) \
+  C05_INSTM(NAME, c05::MODE_NORMAL, CT, FL, Z2, IDX, RA, RR, RC, MAPC, DIM, VINE, SW, 0)
+#define C05_BIGP(NAME, CT, FL, Z2, IDX, RA, RR, RC, MAPC, DIM, VINE, SW, XF) \
+  C05_INSTM(NAME, c05::MODE_BIG_PRIMES, CT, FL, Z2, IDX, RA, RR, RC, MAPC, DIM, VINE, SW, XF)
 
 #endif
